@@ -422,11 +422,9 @@ func (t *Dense) viewMaskGuard() func() {
 	if t.viewOf == 0 || !t.o.IsNotContiguous() || len(t.mask) == 0 {
 		return func() {}
 	}
-	saved := append([]bool(nil), t.mask...)
+	window := t.mask // (the method may re-slice t.mask: makeMask cuts it down to the number of elements)
+	saved := append([]bool(nil), window...)
 	return func() {
-		if len(t.mask) != len(saved) {
-			return
-		}
 		own := make([]bool, len(saved))
 		it := newFlatIterator(&t.AP)
 		for i, err := it.Next(); err == nil; i, err = it.Next() {
@@ -436,7 +434,7 @@ func (t *Dense) viewMaskGuard() func() {
 		}
 		for i := range saved {
 			if !own[i] {
-				t.mask[i] = saved[i]
+				window[i] = saved[i]
 			}
 		}
 	}
@@ -456,6 +454,7 @@ func (t *Dense) SoftenMask() bool {
 
 // MaskFromSlice makes mask from supplied slice
 func (t *Dense) MaskFromSlice(x interface{}) {
+	defer t.viewMaskGuard()() // (before makeMask, which clears the whole mask window)
 	t.makeMask()
 	n := len(t.mask)
 	switch m := x.(type) {
